@@ -294,3 +294,32 @@ def match_seq(patterns: List[str], stmts: List[ast.stmt], b: Optional[Bindings] 
         if not ok:
             return None
     return cur
+
+
+def rebinds_of_params(func: ast.FunctionDef, params: List[str]) -> List[Tuple[str, str, str]]:
+    """(param, statement text, verdict) for every re-binding of a forwarded parameter inside a facade.
+    verdict 'default-if-none'  : `if p is None [or len(p) == 0]: p = <default>`  (documented defaulting, harmless)
+            'suspicious'       : any other re-binding (e.g. `p = p or default`, which replaces legitimate falsy values such as 0)"""
+    out = []
+    for n in walk_no_nested(func):
+        tgts = []
+        if isinstance(n, ast.Assign):
+            tgts = [t for t in n.targets if isinstance(t, ast.Name)]
+        elif isinstance(n, (ast.AugAssign, ast.AnnAssign)) and isinstance(n.target, ast.Name):
+            tgts = [n.target]
+        for t in tgts:
+            if t.id not in params:
+                continue
+            verdict = "suspicious"
+            cur = None
+            # enclosing if
+            for cand in ast.walk(func):
+                if isinstance(cand, ast.If) and any(n is x for x in cand.body):
+                    cur = cand
+            if cur is not None:
+                tests = [cur.test] if not isinstance(cur.test, ast.BoolOp) else list(cur.test.values)
+                if all(match(f"{t.id} is None", x) is not None or match(f"len({t.id}) == 0", x) is not None or match(f"{t.id} == []", x) is not None or match(f"{t.id} == ''", x) is not None for x in tests) \
+                        and any(match(f"{t.id} is None", x) is not None or match(f"{t.id} == ''", x) is not None for x in tests):
+                    verdict = "default-if-none"
+            out.append((t.id, " ".join(ast.unparse(n).split())[:100], verdict))
+    return out
